@@ -183,7 +183,10 @@ Dev_DunderCall(h, kws) == ~FixedDunder /\ kws \cap DunderAffected(h) # {}
 \* default and a type variable is solved from that default
 RECURSIVE HasNameIn(_, _)
 HasNameIn(e, S) == (e.k = "name" /\ e.id \in S) \/ \E i \in 1..Len(e.args) : HasNameIn(e.args[i], S)
-Supplied(h, npos, kws, i) == h.params[i].name \in kws \/ (Rank(h.params[i].kind) <= 2 /\ i <= npos)
+\* (a keyword naming a positional-only parameter does not supply it: it goes to **kwargs or is an error)
+Supplied(h, npos, kws, i) ==
+    \/ h.params[i].kind \in {"POSITIONAL_OR_KEYWORD", "KEYWORD_ONLY"} /\ h.params[i].name \in kws
+    \/ Rank(h.params[i].kind) <= 2 /\ i <= npos
 Dev_EllipsisCall(h, npos, kws) ==
     \E i \in 1..Len(h.params) :
         h.params[i].dflt = "..." /\ HasNameIn(h.params[i].ann, {"T", "TB", "TC"}) /\ ~Supplied(h, npos, kws, i)
